@@ -528,6 +528,27 @@ Theorem C16_session_json_iff : forall K (mac : K -> bytes -> bytes),
 Proof. exact @sess_check_json_iff. Qed.
 Print Assumptions C16_session_json_iff.
 
+(** [authgate.Gate.CheckToken] with the caller's check callback. *)
+Theorem C16_gate_valid_sound : forall K (mac : K -> bytes -> bytes),
+  mac_len_law mac -> mac_bytes_law mac ->
+  forall cb k maxttl now s i,
+  gate_check_token mac cb k maxttl now s = Some i -> gi_valid i = true ->
+  exists e lvl, is_int64 e /\ is_bytes (gi_user i) /\
+    s = sign_hex mac k (le64 (u64_of_int e) ++ gi_user i) /\ now < e /\
+    cb (gi_user i) = Some lvl /\ 0 <= lvl /\ gi_level i = lvl.
+Proof. exact @gate_valid_sound. Qed.
+Print Assumptions C16_gate_valid_sound.
+
+Theorem C16_gate_refused_session_names_no_user : forall K (mac : K -> bytes -> bytes) k cb maxttl now s,
+  sess_check mac k now s = None -> gate_check_token mac cb k maxttl now s = Some (mkGI false [] 0 false).
+Proof. exact @gate_refused_session. Qed.
+Print Assumptions C16_gate_refused_session_names_no_user.
+
+Theorem C16_gate_callback_error_is_error : forall K (mac : K -> bytes -> bytes) cb k maxttl now s u left,
+  sess_check mac k now s = Some (u, left) -> cb u = None -> gate_check_token mac cb k maxttl now s = None.
+Proof. exact @gate_callback_error. Qed.
+Print Assumptions C16_gate_callback_error_is_error.
+
 Theorem C16_session_only_issued : forall K (mac : K -> bytes -> bytes),
   mac_len_law mac -> mac_bytes_law mac ->
   forall k issued now s d left,
